@@ -238,7 +238,7 @@ class read_hit_line:
     def witnesses(rng):
         for _ in range(300):
             k = rng.randrange(1, 19)
-            yield dict(x=rng.randrange(0, 512), y=192, t=rng.choice([float(rng.randrange(-5000, 10**7)), rng.uniform(-1e3, 1e6)]), typ=rng.choice([1, 5]), hs=rng.randrange(16),
+            yield dict(x=rng.randrange(0, 512), y=192, t=rng.choice([float(rng.randrange(-5000, 10**7)), rng.choice([rng.uniform(-1e3, 1e6), rng.uniform(1e6, 2e9), float(rng.randrange(10**6, 10**9)), -rng.uniform(0, 1e7)])]), typ=rng.choice([1, 5]), hs=rng.randrange(16),
                        ns=rng.randrange(4), ads=rng.randrange(4), ci=rng.randrange(100), vol=rng.randrange(101), file=rng.choice(["", "a.wav", "é ü.ogg", " lead.wav"]), keys=k)
 
 
@@ -327,7 +327,7 @@ class read_bpm_line:
 
     def witnesses(rng):
         for _ in range(200):
-            yield dict(t=rng.uniform(-1e3, 1e6), beat_length=rng.choice([500.0, 333.3333333333, 0.001, 1e5]), meter=rng.randrange(1, 9), ss=rng.randrange(4), si=rng.randrange(3), vol=rng.randrange(101), effects=rng.choice([0, 1]))
+            yield dict(t=rng.choice([rng.uniform(-1e3, 1e6), rng.uniform(1e6, 2e9), float(rng.randrange(10**6, 10**9)), -rng.uniform(0, 1e7)]), beat_length=rng.choice([500.0, 333.3333333333, 0.001, 1e5]), meter=rng.randrange(1, 9), ss=rng.randrange(4), si=rng.randrange(3), vol=rng.randrange(101), effects=rng.choice([0, 1]))
 
 
 @lemma("C01", args=_TP_ARGS)
@@ -358,7 +358,7 @@ class read_sv_line:
 
     def witnesses(rng):
         for _ in range(200):
-            yield dict(t=rng.uniform(-1e3, 1e6), beat_length=rng.choice([-100.0, -50.0, -33.3333, -1e3]), meter=4, ss=rng.randrange(4), si=rng.randrange(3), vol=rng.randrange(101), effects=rng.choice([0, 1]))
+            yield dict(t=rng.choice([rng.uniform(-1e3, 1e6), rng.uniform(1e6, 2e9), float(rng.randrange(10**6, 10**9)), -rng.uniform(0, 1e7)]), beat_length=rng.choice([-100.0, -50.0, -33.3333, -1e3]), meter=4, ss=rng.randrange(4), si=rng.randrange(3), vol=rng.randrange(101), effects=rng.choice([0, 1]))
 
 
 # ----------------------------------------------------------------------------- item lines: write direction
@@ -405,7 +405,7 @@ def _rand_hit(rng, k, hold=False):
     from reamber.osu.OsuHit import OsuHit
     from reamber.osu.OsuHold import OsuHold
 
-    kw = dict(offset=rng.choice([float(rng.randrange(-5000, 10**7)), rng.uniform(-1e3, 1e6), -0.5, 0.999]), column=rng.randrange(k), hitsound_set=rng.randrange(16),
+    kw = dict(offset=rng.choice([float(rng.randrange(-5000, 10**7)), rng.choice([rng.uniform(-1e3, 1e6), rng.uniform(1e6, 2e9), float(rng.randrange(10**6, 10**9)), -rng.uniform(0, 1e7)]), -0.5, 0.999]), column=rng.randrange(k), hitsound_set=rng.randrange(16),
               sample_set=rng.randrange(4), addition_set=rng.randrange(4), custom_set=rng.randrange(50), volume=rng.randrange(101), hitsound_file=rng.choice(["", "a.wav", "é.ogg"]))
     if hold:
         return OsuHold(length=rng.choice([0.0, 0.4, 100.0, rng.uniform(0, 5000)]), **kw)
@@ -561,7 +561,7 @@ class write_bpm_line:
         from reamber.osu.OsuBpm import OsuBpm
 
         for _ in range(200):
-            yield dict(o=OsuBpm(offset=rng.uniform(-1e3, 1e6), bpm=rng.choice([120.0, 177.77, 1e-2, 999.0]), metronome=rng.randrange(1, 9), sample_set=rng.randrange(4), sample_set_index=rng.randrange(3), volume=rng.randrange(101), kiai=rng.random() < 0.5))
+            yield dict(o=OsuBpm(offset=rng.choice([rng.uniform(-1e3, 1e6), rng.uniform(1e6, 2e9), float(rng.randrange(10**6, 10**9)), -rng.uniform(0, 1e7)]), bpm=rng.choice([120.0, 177.77, 1e-2, 999.0]), metronome=rng.randrange(1, 9), sample_set=rng.randrange(4), sample_set_index=rng.randrange(3), volume=rng.randrange(101), kiai=rng.random() < 0.5))
 
 
 @lemma("C01", args=dict(o=SV_OBJ))
@@ -595,7 +595,7 @@ class write_sv_line:
         from reamber.osu.OsuSv import OsuSv
 
         for _ in range(200):
-            yield dict(o=OsuSv(offset=rng.uniform(-1e3, 1e6), multiplier=rng.choice([1.0, 0.5, 2.25, 10.0, 0.01]), sample_set=rng.randrange(4), sample_set_index=rng.randrange(3), volume=rng.randrange(101), kiai=rng.random() < 0.5))
+            yield dict(o=OsuSv(offset=rng.choice([rng.uniform(-1e3, 1e6), rng.uniform(1e6, 2e9), float(rng.randrange(10**6, 10**9)), -rng.uniform(0, 1e7)]), multiplier=rng.choice([1.0, 0.5, 2.25, 10.0, 0.01]), sample_set=rng.randrange(4), sample_set_index=rng.randrange(3), volume=rng.randrange(101), kiai=rng.random() < 0.5))
 
 
 SAMPLE_FILE = Text(forbid=",\n\r")
@@ -629,7 +629,7 @@ class sample_event_round_trip:
         from reamber.osu.OsuSample import OsuSample
 
         for _ in range(200):
-            yield dict(o=OsuSample(offset=rng.uniform(-1e3, 1e6), sample_file=rng.choice(["a.wav", "", "x y.ogg", "é.wav"]), volume=rng.randrange(101)))
+            yield dict(o=OsuSample(offset=rng.choice([rng.uniform(-1e3, 1e6), rng.uniform(1e6, 2e9), float(rng.randrange(10**6, 10**9)), -rng.uniform(0, 1e7)]), sample_file=rng.choice(["a.wav", "", "x y.ogg", "é.wav"]), volume=rng.randrange(101)))
 
 
 # ----------------------------------------------------------------------------- metadata: key:value parser / formatter
